@@ -259,6 +259,20 @@ type Opt struct {
 	// "e" embedded struct. Consecutive options with the same mark share one
 	// such field.
 	Inline string `json:"inline,omitempty"`
+	// InCode: attributes that are not written in the tag but assigned to the
+	// fields of the library's Option after construction: "required",
+	// "default", "choices", "hidden", "env", "optional", "desc", "valuename",
+	// "mask".
+	InCode []string `json:"incode,omitempty"`
+}
+
+func (o *Opt) inCode(attr string) bool {
+	for _, a := range o.InCode {
+		if a == attr {
+			return true
+		}
+	}
+	return false
 }
 
 func (o *Opt) IsOptional() bool { return o.Optional != "" }
@@ -267,8 +281,62 @@ func (o *Opt) IsHidden() bool   { return o.Hidden != "" }
 
 type Plain struct {
 	Field string `json:"field"`
-	Kind  string `json:"kind"` // "int", "string", "[]string", "ptr", "map"
-	Init  string `json:"init"`
+	// Kind: "int", "string", "[]string", "ptr", "map", "bool", "alias:<kind>",
+	// or a field marked no-flag whose tag (or whose inner fields' tags) would
+	// otherwise declare options named after Init: "noflag" (an int field
+	// tagged no-flag + long), "noflagstruct" (a struct field tagged no-flag
+	// whose fields carry long/short tags), "noflaggroup" (the same, also
+	// tagged as a group with a namespace)
+	Kind string `json:"kind"`
+	Init string `json:"init"`
+}
+
+func noFlagStructType(long string) reflect.Type {
+	var sb strings.Builder
+	tagKV(&sb, "long", long)
+	tagKV(&sb, "description", "must never become an option")
+	return reflect.StructOf([]reflect.StructField{
+		{Name: "X", Type: reflect.TypeOf(false), Tag: reflect.StructTag(sb.String())},
+		{Name: "Y", Type: reflect.TypeOf(""), Tag: `long:"` + reflect.StructTag(long) + `-y"`},
+	})
+}
+
+// Tag of the untagged-in-spirit field.
+func (p *Plain) Tag() string {
+	var sb strings.Builder
+	switch p.Kind {
+	case "noflag":
+		tagKV(&sb, "no-flag", "true")
+		tagKV(&sb, "long", p.Init)
+	case "noflagstruct":
+		tagKV(&sb, "no-flag", "1")
+	case "noflaggroup":
+		tagKV(&sb, "group", "No Flag Group")
+		tagKV(&sb, "namespace", "nf")
+		tagKV(&sb, "no-flag", "yes")
+	}
+	return sb.String()
+}
+
+// NoFlagNames lists the long names that fields marked no-flag would declare if
+// the mark were ignored (with and without the namespace of a no-flag group).
+func (d *Decl) NoFlagNames() []string {
+	var r []string
+	d.EachCmd(func(c *Cmd, chain []*Cmd) {
+		c.G.EachGroup(func(g *Group, parents []*Group) {
+			for _, p := range g.Plain {
+				switch p.Kind {
+				case "noflag":
+					r = append(r, p.Init)
+				case "noflagstruct":
+					r = append(r, p.Init, p.Init+"-y")
+				case "noflaggroup":
+					r = append(r, p.Init, p.Init+"-y", "nf"+d.NsD()+p.Init)
+				}
+			}
+		})
+	})
+	return r
 }
 
 type Group struct {
@@ -393,6 +461,12 @@ func (d *Decl) CmdOpts(c *Cmd, chain []*Cmd) []*OptInfo {
 						n = gs[j].Namespace + d.NsD() + n
 					}
 				}
+				// namespaces assigned in code to the enclosing commands
+				for j := len(chain) - 2; j >= 0; j-- {
+					if ns := chain[j].G.Namespace; ns != "" {
+						n = ns + d.NsD() + n
+					}
+				}
 				oi.NsLong = n
 			}
 			if o.Env != "" {
@@ -400,6 +474,11 @@ func (d *Decl) CmdOpts(c *Cmd, chain []*Cmd) []*OptInfo {
 				for j := len(gs) - 1; j >= 0; j-- {
 					if gs[j].EnvNamespace != "" {
 						n = gs[j].EnvNamespace + d.EnvNsD() + n
+					}
+				}
+				for j := len(chain) - 2; j >= 0; j-- {
+					if ns := chain[j].G.EnvNamespace; ns != "" {
+						n = ns + d.EnvNsD() + n
 					}
 				}
 				oi.EnvKey = n
@@ -465,37 +544,43 @@ func (o *Opt) Tag() string {
 	if o.Long != "" {
 		tagKV(&sb, "long", o.Long)
 	}
-	if o.Desc != "" {
+	if o.Desc != "" && !o.inCode("desc") {
 		tagKV(&sb, "description", o.Desc)
 	}
-	for _, d := range o.Defaults {
-		tagKV(&sb, "default", d)
+	if !o.inCode("default") {
+		for _, d := range o.Defaults {
+			tagKV(&sb, "default", d)
+		}
 	}
-	if o.Env != "" {
+	if o.Env != "" && !o.inCode("env") {
 		tagKV(&sb, "env", o.Env)
 	}
-	if o.EnvDelim != "" {
+	if o.EnvDelim != "" && !o.inCode("env") {
 		tagKV(&sb, "env-delim", o.EnvDelim)
 	}
-	if o.Optional != "" {
-		tagKV(&sb, "optional", o.Optional)
+	if !o.inCode("optional") {
+		if o.Optional != "" {
+			tagKV(&sb, "optional", o.Optional)
+		}
+		for _, d := range o.OptVals {
+			tagKV(&sb, "optional-value", d)
+		}
 	}
-	for _, d := range o.OptVals {
-		tagKV(&sb, "optional-value", d)
-	}
-	if o.Required != "" {
+	if o.Required != "" && !o.inCode("required") {
 		tagKV(&sb, "required", o.Required)
 	}
-	if o.ValueName != "" {
+	if o.ValueName != "" && !o.inCode("valuename") {
 		tagKV(&sb, "value-name", o.ValueName)
 	}
-	if o.DefaultMask != "" {
+	if o.DefaultMask != "" && !o.inCode("mask") {
 		tagKV(&sb, "default-mask", o.DefaultMask)
 	}
-	for _, d := range o.Choices {
-		tagKV(&sb, "choice", d)
+	if !o.inCode("choices") {
+		for _, d := range o.Choices {
+			tagKV(&sb, "choice", d)
+		}
 	}
-	if o.Hidden != "" {
+	if o.Hidden != "" && !o.inCode("hidden") {
 		tagKV(&sb, "hidden", o.Hidden)
 	}
 	if o.Base != 0 {
@@ -560,6 +645,17 @@ type Built struct {
 	// registered their options (key: opt ID or positional key; value: why).
 	// OptVal/PosVal then refer to a zero value: what the caller sees.
 	Detached map[string]string
+	// LibOpt: opt ID -> the library's Option, paired by position (library
+	// groups and options are kept in declaration order)
+	LibOpt  map[string]*flags.Option
+	PairErr string
+}
+
+func plainFieldType(p *Plain) reflect.Type {
+	if p.Kind == "noflagstruct" || p.Kind == "noflaggroup" {
+		return noFlagStructType(p.Init)
+	}
+	return plainType(p.Kind)
 }
 
 func plainType(kind string) reflect.Type {
@@ -567,6 +663,8 @@ func plainType(kind string) reflect.Type {
 		return Kind(kind[len("alias:"):]).Type()
 	}
 	switch kind {
+	case "noflag":
+		return reflect.TypeOf(int(0))
 	case "int":
 		return reflect.TypeOf(int(0))
 	case "string":
@@ -588,6 +686,10 @@ func plainInit(p *Plain) interface{} {
 		return reflect.Zero(plainType(p.Kind)).Interface()
 	}
 	switch p.Kind {
+	case "noflag":
+		return 5
+	case "noflagstruct", "noflaggroup":
+		return reflect.Zero(noFlagStructType(p.Init)).Interface()
 	case "int":
 		n, _ := strconv.Atoi(p.Init)
 		return n
@@ -661,7 +763,7 @@ func (bl *builder) groupType(g *Group, host *Cmd) reflect.Type {
 	// untagged fields are declared partly before and partly after the options
 	for i := range g.Plain {
 		if p := &g.Plain[i]; i%2 == 0 {
-			fs = append(fs, reflect.StructField{Name: p.Field, Type: plainType(p.Kind)})
+			fs = append(fs, reflect.StructField{Name: p.Field, Type: plainFieldType(p), Tag: reflect.StructTag(p.Tag())})
 		}
 	}
 	var optFields []reflect.StructField
@@ -687,7 +789,7 @@ func (bl *builder) groupType(g *Group, host *Cmd) reflect.Type {
 	}
 	for i := range g.Plain {
 		if p := &g.Plain[i]; i%2 == 1 {
-			fs = append(fs, reflect.StructField{Name: p.Field, Type: plainType(p.Kind)})
+			fs = append(fs, reflect.StructField{Name: p.Field, Type: plainFieldType(p), Tag: reflect.StructTag(p.Tag())})
 		}
 	}
 	for i := range g.Groups {
@@ -974,6 +1076,7 @@ func Build(d *Decl) *Built {
 		PosVal:   map[string]reflect.Value{},
 		Cmds:     map[string]*flags.Command{},
 		Detached: map[string]string{},
+		LibOpt:   map[string]*flags.Option{},
 	}
 	bl := &builder{b: b, d: d}
 	p := flags.NewNamedParser(d.Root.Name, flags.Options(d.Opts))
@@ -989,6 +1092,17 @@ func Build(d *Decl) *Built {
 	p.LongDescription = d.Root.LongDesc
 	b.Cmds[d.Root.ID] = p.Command
 	bl.attach(p.Command, &d.Root)
+	if b.Err == nil {
+		bl.pair()
+		bl.assignInCode()
+	}
+	// namespaces of commands can only be assigned in code
+	p.Namespace, p.EnvNamespace = d.Root.G.Namespace, d.Root.G.EnvNamespace
+	d.EachCmd(func(c *Cmd, chain []*Cmd) {
+		if lc := b.Cmds[c.ID]; lc != nil && c != &d.Root {
+			lc.Namespace, lc.EnvNamespace = c.G.Namespace, c.G.EnvNamespace
+		}
+	})
 	return b
 }
 
@@ -1063,4 +1177,72 @@ func (b *Built) ActiveChain() []string {
 		r = append(r, c.Name)
 	}
 	return r
+}
+
+// pair matches the model's options with the library's, by position.
+func (bl *builder) pair() {
+	b := bl.b
+	var pairGroup func(lg *flags.Group, g *Group)
+	pairGroup = func(lg *flags.Group, g *Group) {
+		lo := lg.Options()
+		if len(lo) != len(g.Options) {
+			b.PairErr = fmt.Sprintf("group %q: library has %d options, declaration %d", g.Desc, len(lo), len(g.Options))
+			return
+		}
+		for i := range g.Options {
+			b.LibOpt[g.Options[i].ID] = lo[i]
+		}
+		lgs := lg.Groups()
+		if len(lgs) != len(g.Groups) {
+			b.PairErr = fmt.Sprintf("group %q: library has %d sub-groups, declaration %d", g.Desc, len(lgs), len(g.Groups))
+			return
+		}
+		for i := range g.Groups {
+			pairGroup(lgs[i], &g.Groups[i])
+		}
+	}
+	bl.d.EachCmd(func(c *Cmd, chain []*Cmd) {
+		lc := b.Cmds[c.ID]
+		if lc == nil {
+			return
+		}
+		pairGroup(lc.Group, &c.G)
+	})
+}
+
+func (bl *builder) assignInCode() {
+	b := bl.b
+	for _, o := range bl.d.AllOpts() {
+		if len(o.InCode) == 0 {
+			continue
+		}
+		lo := b.LibOpt[o.ID]
+		if lo == nil {
+			b.PairErr += fmt.Sprintf(" (option %s has attributes to assign in code but was not found)", o.ID)
+			continue
+		}
+		for _, a := range o.InCode {
+			switch a {
+			case "required":
+				lo.Required = o.Required != ""
+			case "default":
+				lo.Default = append([]string(nil), o.Defaults...)
+			case "choices":
+				lo.Choices = append([]string(nil), o.Choices...)
+			case "hidden":
+				lo.Hidden = o.Hidden != ""
+			case "env":
+				lo.EnvDefaultKey, lo.EnvDefaultDelim = o.Env, o.EnvDelim
+			case "optional":
+				lo.OptionalArgument = o.Optional != ""
+				lo.OptionalValue = append([]string(nil), o.OptVals...)
+			case "desc":
+				lo.Description = o.Desc
+			case "valuename":
+				lo.ValueName = o.ValueName
+			case "mask":
+				lo.DefaultMask = o.DefaultMask
+			}
+		}
+	}
 }
